@@ -111,7 +111,11 @@ func c14Property(t *rapid.T, st *Stats) {
 		k := known{repo: "r1", tags: l.tags, mans: l.manifests, blob: l.blobs}
 		kn = append(kn, k)
 		trace = append(trace, l.desc...)
-		legacyRegen = l.regenerate > 0
+		// does the conversion of this layout have to write a new response blob? The generator's own estimate misses
+		// combinations (two adoptable indexes that end up at the same subject, ...): ask a writable store on a scratch
+		// copy. This only scopes the listed finding 22 (a read-only store cannot convert such a layout), it is not
+		// the oracle of the property.
+		legacyRegen = l.regenerate > 0 || c14ConversionWrites(root)
 		// a read-only dir store cannot serve a layout whose conversion needs a new blob (open question, finding 22):
 		// read expectations only for healthy and adoptable roots
 		expectServe = rootKind == "legacy-adoptable"
@@ -389,6 +393,34 @@ func c14Property(t *rapid.T, st *Stats) {
 	if after != before {
 		fail("tree-changed", "%s (push=%v delete=%v blobDelete=%v): the directory tree changed:\n%s", mode, push, del, blobDel, diffLines(before, after))
 	}
+}
+
+// c14ConversionWrites converts a scratch copy of the root with a writable directory store and reports whether that
+// created blob files.
+func c14ConversionWrites(root string) bool {
+	scratch := mkTemp("c14conv")
+	defer os.RemoveAll(scratch)
+	copyTree(root, scratch)
+	count := func() int {
+		n := 0
+		_ = filepath.Walk(scratch, func(p string, fi os.FileInfo, err error) error {
+			if err == nil && !fi.IsDir() && strings.Contains(p, string(filepath.Separator)+"blobs"+string(filepath.Separator)) {
+				n++
+			}
+			return nil
+		})
+		return n
+	}
+	before := count()
+	srv := olareg.New(baseConf(config.StoreDir, scratch))
+	ents, _ := os.ReadDir(scratch)
+	for _, e := range ents {
+		if e.IsDir() {
+			_ = doReq(srv, "GET", "/v2/"+e.Name()+"/tags/list", nil, nil)
+		}
+	}
+	_ = srv.Close()
+	return count() != before
 }
 
 // treeSnapshotFull lists everything below root: type, mode, size, hash and mtime of files and directories.
